@@ -147,15 +147,19 @@ def gen_c11(tier, seed):
     if big:
         quants += [(100, 9), (33, 1), (1000, 7), (1000, 13), (4096, 511), (2, 1), (100, 100),
                    (17, 3)]
-    for (q, r) in quants:
-        for start in (0, 1, 5):
+    # very coarse clocks: more than 101 batches of 100 back-to-back pairs read zero before
+    # the first tick is seen, i.e. the first non-zero sample arrives when the artificial
+    # delay is already long (the loop's "delayed a lot" exit must not fire on it)
+    coarse = [(10301, 1), (20301, 1)] + ([(40001, 1), (61001, 3), (20201, 1)] if big else [])
+    for (q, r) in quants + coarse:
+        for start in ((0, 1, 5) if q < 10000 else (1,)):
             if not any((start + 2 * r * i + r) // q > (start + 2 * r * i) // q for i in range(q + 1)):
                 continue      # no start/end pair ever straddles a tick
             for f in ([10 ** 9, 2_500_000_000, 10 ** 10] if not big else pfreqs):
                 if q * 10 ** 12 // f == 0:
                     continue
                 scs.append(sc_("precision", p, freq=f, step=r, quantum=q, start=start,
-                               log_reads=True, step_bound=2000 + 1000 * (q // r + 1)))
+                               log_reads=True if q < 10000 else None, step_bound=2000 + 1000 * (q // r + 1)))
                 p += 1
     return scs
 
